@@ -44,6 +44,41 @@ func c08Prog(r *gen.Rand) gen.ProgCfg {
 
 // cycleShapes are hand-shaped reference cycles of every kind the property
 // names, instantiated with random keys.
+// longNamesDoc: keys as real configurations have them — long, differing in
+// their tails only — and references to them, some of which are near misses
+// (a typo) or miss altogether.
+func longNamesDoc(r *gen.Rand) any {
+	fam := gen.PickAny(r, gen.KeyFamilies[len(gen.KeyFamilies)-2:])
+	doc := map[string]any{}
+	for i, k := range fam {
+		doc[k] = map[string]any{"n": i, "tier": r.Pick("front", "back")}
+	}
+	k := gen.PickAny(r, fam)
+	ref := k
+	switch r.Intn(5) {
+	case 0:
+		ref = k[:len(k)-1] // one letter short
+	case 1:
+		ref = k + "s"
+	case 2:
+		ref = k[:len(k)-2] + "Xy"
+	case 3:
+		ref = strings.ToUpper(k[:1]) + k[1:]
+	}
+	host := gen.PickAny(r, fam)
+	switch r.Intn(4) {
+	case 0:
+		doc[host].(map[string]any)["$merge"] = ref
+	case 1:
+		doc["ref"] = "$merge:" + ref
+	case 2:
+		doc["text"] = `$"{` + ref + `.tier}-{` + ref + `.n}"`
+	default:
+		doc["copy"] = map[string]any{"$replace": ref + ".tier"}
+	}
+	return doc
+}
+
 func cycleDoc(r *gen.Rand) any {
 	k := gen.PickAny(r, gen.DefaultKeys)
 	k2 := gen.PickAny(r, gen.DefaultKeys)
@@ -201,6 +236,8 @@ func genC08(r *gen.Rand) *C08Case {
 			switch {
 			case r.Chance(0.08):
 				doc = cycleDoc(r)
+			case r.Chance(0.03):
+				doc = longNamesDoc(r)
 			case l > 0 && first != nil && r.Chance(0.6):
 				doc = child.Child(r, wire.Clone(first))
 				if r.Chance(0.15) {
